@@ -467,6 +467,86 @@ func (r *c13Run) runCase(cs c13Case) {
 		}
 	}
 
+	// ---------- two shares altered together (deviations cancel in the sum) ----------
+	// oracle: strict AggregateResponse rejects iff some share fails VerifyResponse
+	if k >= 2 {
+		type pr struct{ a, b int }
+		var pairs []pr
+		if v.n <= 5 {
+			for a := 0; a < k; a++ {
+				for b := 0; b < k; b++ {
+					if a != b {
+						pairs = append(pairs, pr{a, b})
+					}
+				}
+			}
+		} else {
+			seen := map[pr]bool{}
+			for _, q := range []pr{{0, k - 1}, {k - 1, 0}, {0, 1}, {k - 2, k - 1}, {k - 1, k - 2}, {k / 2, k - 1}, {k - 1, k / 2}} {
+				if q.a != q.b && !seen[q] {
+					seen[q] = true
+					pairs = append(pairs, q)
+				}
+			}
+		}
+		one := edwards25519.NewScalar()
+		one, _ = one.SetCanonicalBytes(append([]byte{1}, make([]byte, 31)...))
+		minusOne := edwards25519.NewScalar().Negate(one)
+		fixed, _ := edwards25519.NewScalar().SetUniformBytes(func() []byte { h := sha512.Sum512([]byte("c13/pair-delta")); return h[:] }())
+		deltas := []struct {
+			name string
+			d    *edwards25519.Scalar
+		}{{"d=1", one}, {"d=l-1", minusOne}, {"d=fixed", fixed}}
+		shift := func(sv *[32]byte, d *edwards25519.Scalar, neg bool) *[32]byte {
+			x, _ := edwards25519.NewScalar().SetCanonicalBytes(sv[:])
+			if neg {
+				x.Subtract(x, d)
+			} else {
+				x.Add(x, d)
+			}
+			var out [32]byte
+			copy(out[:], x.Bytes())
+			return &out
+		}
+		runPair := func(name string, a, b int, sa, sb *[32]byte) {
+			ia, ib := members[a], members[b]
+			c.Eval(1)
+			c.Distinct(fmt.Sprintf("%spair|%d|%d|%s", tag, ia, ib, name))
+			tr := cpResp(resp)
+			tr[ia], tr[ib] = sa, sb
+			probe := build()
+			badA := probe.VerifyResponse(v.pub, ia, sa, msg) != nil
+			badB := probe.VerifyResponse(v.pub, ib, sb, msg) != nil
+			if badA != !c13RefShare(v.pub[ia][:], commit[ia][:], sa[:], refX) || badB != !c13RefShare(v.pub[ib][:], commit[ib][:], sb[:], refX) {
+				if !badA || !badB {
+					r.viol(cs, "single:accepted:pair-"+name, fmt.Sprintf("VerifyResponse accepts an altered share of signer %d or %d (%s)", ia, ib, name), map[string]any{"signers": []int{ia, ib}, "tamper": name})
+				}
+				return
+			}
+			if !badA && !badB {
+				r.noop.Add(1)
+				return
+			}
+			r.refBad.Add(1)
+			err := build().AggregateResponse(v.pub, tr, msg, true)
+			if err == nil {
+				c.Outcome("pair:" + name + ":strict-accepted")
+				r.viol(cs, "strict:accepted:pair-"+name, fmt.Sprintf("strict AggregateResponse of %d responses accepts altered shares of signers %d and %d (%s) although VerifyResponse rejects them", k, ia, ib, name),
+					map[string]any{"signers": []int{ia, ib}, "tamper": name, "responses": k})
+			} else {
+				c.Outcome("pair:" + name + ":strict-reject")
+			}
+		}
+		for _, q := range pairs {
+			for _, dl := range deltas {
+				runPair("cancelling-"+dl.name, q.a, q.b, shift(resp[members[q.a]], dl.d, false), shift(resp[members[q.b]], dl.d, true))
+			}
+			if q.a < q.b {
+				runPair("swapped", q.a, q.b, resp[members[q.b]], resp[members[q.a]])
+			}
+		}
+	}
+
 	// ---------- mask / threshold tampering of a value that has already been verified ----------
 	// (same value and by-value copy: Keys()/FullVerify ran before Mask is changed)
 	{
@@ -735,7 +815,7 @@ func (r *c13Run) runBoundary(v65 *c13Vec) {
 func TestMC_C13(t *testing.T) {
 	c := verifmc.Start(t, "C13", "exploration")
 	defer c.Finish()
-	c.SetRule("key vectors n in {1,2,3,5,8,64} x masks (all 2^n-1 for n<=8; for n=64 every single index 0..63, every adjacent pair, the full mask; thorough tier adds n in {4,6,7,10} with all masks and every index pair for n=64) x 2 messages; per case: honest flow, threshold menu {0,1,|M|-1,|M|,|M|+1,65}, every member x {share of another signer, share for the other message, s+1, s+l non-canonical, response missing, index marked twice}, all indexes shifted by one, extra mask bit at n and 63, truncated key vector; every mask/threshold tamper (each signer dropped, dropped with threshold |M|, each outside signer added [n=64: lowest and highest], bit n / 63 added, mask shifted) also applied to a value that has already been aggregated and verified, both in place and on a by-value copy, followed by restoring the mask; plus index 64 / -1 sets with a 65-key vector. A case is distinct by (n, mask, message, scenario, signer, tamper kind)")
+	c.SetRule("key vectors n in {1,2,3,5,8,64} x masks (all 2^n-1 for n<=8; for n=64 every single index 0..63, every adjacent pair, the full mask; thorough tier adds n in {4,6,7,10} with all masks and every index pair for n=64) x 2 messages; per case: honest flow, threshold menu {0,1,|M|-1,|M|,|M|+1,65}, every member x {share of another signer, share for the other message, s+1, s+l non-canonical, response missing, index marked twice}, two shares altered together (s_a+d, s_b-d for d in {1, l-1, a fixed scalar} and s_a<->s_b swapped; all ordered member pairs for n<=5, boundary pairs otherwise; oracle: strict aggregation rejects iff a share fails VerifyResponse), all indexes shifted by one, extra mask bit at n and 63, truncated key vector; every mask/threshold tamper (each signer dropped, dropped with threshold |M|, each outside signer added [n=64: lowest and highest], bit n / 63 added, mask shifted) also applied to a value that has already been aggregated and verified, both in place and on a by-value copy, followed by restoring the mask; plus a 13-key vector (thorough: 21) with signer counts {1,2,3,4,5,7..13} (thorough {1..13,16,17,21}) as low prefix / high suffix / alternating masks, every position tampered; plus index 64 / -1 sets with a 65-key vector. A case is distinct by (n, mask, message, scenario, signer, tamper kind)")
 	c.Assume("reference verifier: plain Schnorr on filippo.io/edwards25519 with challenge SHA-512(R||A||m), A and R plain sums over masked signers (the construction of crypto/signature.go and crypto/cosi.go)",
 		"keys and nonces are derived deterministically from SHA-512 of labels through NewKeyFromSeed; nonce single-use handling (CosiNonce) is the subject of C12 and bypassed here (CosiSignature.Response is called directly)",
 		"the 'index marked twice' scenario is produced in-package with CosiSignature.mark because a Go map cannot carry a duplicated index")
@@ -776,6 +856,36 @@ func TestMC_C13(t *testing.T) {
 			}
 		}
 	}
+	// signer counts around the worker/batch boundaries of strict aggregation: every
+	// count of the menu as low prefix, high suffix and alternating members of one vector
+	{
+		nBig := verifmc.Pick(c, 13, 21)
+		counts := verifmc.Pick(c, []int{1, 2, 3, 4, 5, 7, 8, 9, 10, 11, 12, 13}, []int{1, 2, 3, 4, 5, 6, 7, 8, 9, 10, 11, 12, 13, 16, 17, 21})
+		v := c13Vector(nBig)
+		seen := map[uint64]bool{}
+		for _, k := range counts {
+			low := uint64(1)<<uint(k) - 1
+			cand := []uint64{low, low << uint(nBig-k)}
+			if 2*k-1 <= nBig {
+				var alt uint64
+				for i := 0; i < k; i++ {
+					alt |= uint64(1) << uint(2*i)
+				}
+				cand = append(cand, alt)
+			}
+			for _, m := range cand {
+				if seen[m] {
+					continue
+				}
+				seen[m] = true
+				nMasks++
+				for mi := range r.msgs {
+					cases = append(cases, c13Case{vec: v, mask: m, mi: mi})
+				}
+			}
+		}
+		c.Set("signer_count_menu", counts)
+	}
 	// largest cases first for a balanced parallel schedule
 	sort.SliceStable(cases, func(a, b int) bool {
 		return bits.OnesCount64(cases[a].mask) > bits.OnesCount64(cases[b].mask)
@@ -814,6 +924,9 @@ func TestMC_C13(t *testing.T) {
 			c.Require(c.OutcomeCount("after-use:"+cl+":reject") > 0, "after-use tamper %s never rejected", cl)
 		}
 		c.Require(c.OutcomeCount("outside:reject") > 0 && c.OutcomeCount("shift:api-reject") > 0 && c.OutcomeCount("boundary:commit-reject") > 0, "mask fault outcomes missing")
+		for _, o := range []string{"pair:cancelling-d=1:strict-reject", "pair:cancelling-d=l-1:strict-reject", "pair:cancelling-d=fixed:strict-reject", "pair:swapped:strict-reject"} {
+			c.Require(c.OutcomeCount(o) > 0, "outcome %q never reached", o)
+		}
 		c.Require(r.refOK.Load() > 0 && r.refBad.Load() > 0, "reference verifier not exercised in both directions")
 	}
 }
